@@ -8,7 +8,7 @@ import (
 func init() {
 	props = append(props, prop{
 		ID: "C19", Title: "Executors: tasks run exactly once, within the bound, FIFO where promised", Level: "exploration",
-		Rule: "three kinds of case, evaluations = cases. pool: taskpool.New(n,q) / New(n,q,caller) / NewIO(n,q,buf) under 1-16 submitters, bursts far above the bound, Stop racing the submissions; exactly-once for tasks whose Go returned before Stop was called (decided in a stuck state: nothing running, no start/end event over >=20 samples/>=2 s idle CPU), at-most-once otherwise, running counter <= n, IOTaskPool buffer length and exclusive ownership; non-trivial only if at least one fork failed (queue path taken, counted at taskpool.afterForkFail) and >=2 tasks ran together. capacity: K0 self-calibrated on fresh pools, then burst of 10-100x the bound, idle (workers exited), barrier of K0 on the same pool; non-trivial only if fork failures occurred in the burst and K0 >= 2. async: Timer.Async (timer.New and Engine.Async) under 1-16 producers with delays at timer.async.afterF: exactly-once, non-overlap, real-time FIFO (sweep, porcupine on histories <= 30); non-trivial only if the drainer finished the last queued function while a producer was inside Async (observed at the hook). distinct by kind and case index",
+		Rule: "three kinds of case, evaluations = cases. pool: taskpool.New(n,q) / New(n,q,caller) / NewIO(n,q,buf) under 1-16 submitters, bursts far above the bound, Stop racing the submissions; exactly-once for tasks whose Go returned before Stop was called (decided in a stuck state: nothing running, no start/end event over >=20 samples/>=2 s idle CPU), at-most-once otherwise, running counter <= n, IOTaskPool buffer length and exclusive ownership; non-trivial only if at least one fork failed (queue path taken, counted at taskpool.afterForkFail) and >=2 tasks ran together. capacity: K0 self-calibrated on fresh pools, then burst of 10-100x the bound, idle (workers exited), barrier of K0 on the same pool; non-trivial only if fork failures occurred in the burst and K0 >= 2. async: Timer.Async (timer.New and Engine.Async) under 1-16 producers with delays at timer.async.afterF: exactly-once, non-overlap, real-time FIFO (sweep, porcupine on histories <= 30); non-trivial only if the drainer finished the last queued function while a producer was inside Async (observed at the hook). distinct by kind and case index. Case kind async-churn: 4-16 producers pass thousands of functions that do nothing to Timer.Async, so that the drainer exits and is restarted all the time; every function runs exactly once, decided in the final state",
 		Assumptions: append([]string{
 			"the bound asserted for New(n, q) is n tasks submitted with Go running at once (workers plus the dispatcher running a task inline); Call runs on the caller's goroutine and is not counted",
 			"K0 is measured on fresh pools of the same build, so the capacity clause is relative to what this tree's fresh pool can do",
